@@ -239,6 +239,12 @@ def build(P, attrs, name="top", is_async=False, mc=2, built=None, _counter=None,
             fns[fname] = xn(wrapper, **attrs(f"{fname_prefix}_{fname}"))
         return fns[fname]
     local = {}
+    resmap = {}     # node id -> the resource the harness asked for (the node must run on the matching kind of thread, C04)
+
+    def res_for(fname, setup=False, unpack=0, debug=False):
+        key = (f"{fname_prefix}_{fname}_debug" if debug else f"{fname_prefix}_{fname}_u{unpack}" if unpack
+               else f"{fname_prefix}_{fname}_setup" if setup else f"{fname_prefix}_{fname}")
+        return attrs(key).get("resource")
 
     def interp(*params):
         env = []
@@ -261,6 +267,8 @@ def build(P, attrs, name="top", is_async=False, mc=2, built=None, _counter=None,
                 sd, sub_local = subdags[s["sub"] - 1]
                 v = sd(*pos, **extra)
                 local[j] = [((j,) + rel, f"{sd.qualname}.{iid}") for rel, iid in sub_local]
+                for iid, r in getattr(sd, "_verif_resmap", {}).items():
+                    resmap[f"{sd.qualname}.{iid}"] = r
             else:
                 if s["kind"] == "call":
                     declared = s["unpack"] and s.get("declunpack") and not s.get("setup")
@@ -273,6 +281,9 @@ def build(P, attrs, name="top", is_async=False, mc=2, built=None, _counter=None,
                     v = {"and": and_, "or": or_, "not": not_}[s["fn"]](*pos, **extra)
                 first = v[0] if isinstance(v, tuple) else v
                 local[j] = [((j,), first.id)]
+                if s["kind"] == "call":
+                    declared = s["unpack"] and s.get("declunpack") and not s.get("setup")
+                    resmap[first.id] = res_for(s["fn"], s.get("setup", False), s["unpack"] if declared else 0, bool(s.get("debug")))
             env.append(v)
         outs = [res(r) for r in P["ret"]["refs"]]
         shape = P["ret"]["shape"]
@@ -292,6 +303,10 @@ def build(P, attrs, name="top", is_async=False, mc=2, built=None, _counter=None,
         env[name].__qualname__ = f"ns{name[3:]}.sub"
     d = dag(env[name], max_concurrency=mc, is_async=is_async)
     flat = [x for j in sorted(local) for x in local[j]]
+    try:
+        d._verif_resmap = {i: r for i, r in resmap.items() if r is not None}
+    except Exception:  # noqa: BLE001
+        pass
     return d, flat
 
 
@@ -299,6 +314,9 @@ class Recorder:
     def __init__(self):
         self.entered = {}
         self.execs = []
+        self.resmap = {}
+        self.caller = None
+        self.wrongthread = []
 
     def __call__(self, event, **f):
         if event == "exec_begin":
@@ -307,6 +325,12 @@ class Recorder:
             if any(f["results"] is r for r in self.execs):
                 i = f["xn"].id
                 self.entered[i] = self.entered.get(i, 0) + 1
+                if self.caller is not None and i in self.resmap:
+                    # a main-thread node runs on the thread that called the DAG, every other node on a worker thread
+                    import threading
+                    on_caller = threading.get_ident() == self.caller
+                    if (getattr(self.resmap[i], "name", str(self.resmap[i])) == "main_thread") != on_caller:
+                        self.wrongthread.append(i)
 
 
 def errclass(e):
@@ -327,7 +351,10 @@ def run_real(d, flat, given, is_async, dbg=False):
 
     twz_cfg.RUN_DEBUG_NODES = bool(dbg)
 
+    import threading
     rec = Recorder()
+    rec.resmap = getattr(d, "_verif_resmap", {})
+    rec.caller = threading.get_ident()
     _verif.sink = rec
     obs = {"raised": False, "errclass": "", "val": None}
     try:
@@ -354,6 +381,7 @@ def run_real(d, flat, given, is_async, dbg=False):
     obs["exec"] = sorted(execd)
     obs["dup"] = dup
     obs["unknown"] = unknown[:5]
+    obs["wrongthread"] = bool(rec.wrongthread)
     if obs["val"] is None:
         obs["val"] = {"k": "err", "i": 0, "s": [], "x": "", "ks": []}
     return obs
